@@ -45,6 +45,17 @@ var pureExterns = map[string]bool{
 	"fmt.Errorf": true, "errors.New": true, "fmt.Sprintf": true, "fmt.Sprint": true,
 }
 
+// cgoRuntimeHelper: helpers that cgo generates into every package that imports "C" (pointer
+// checks, keep-alive markers, string conversion): no effect on the verified state. The C
+// functions themselves (_Cfunc_*) need assumed contracts.
+func cgoRuntimeHelper(name string) bool {
+	switch name {
+	case "_cgoCheckPointer", "_cgoCheckResult", "_Cgo_use", "_Cgo_keepalive", "_cgo_runtime_gostring", "_cgo_runtime_gostringn", "_cgo_runtime_gobytes", "_cgo_cmalloc":
+		return true
+	}
+	return false
+}
+
 func isPureByPackage(pp string) bool {
 	// logging / tracing / metrics have no effect on the state under contract; the sync
 	// primitives are no-ops in a sequential semantics (no schedule is modelled)
@@ -249,7 +260,7 @@ func (f *Frame) callFunc(fn *ssa.Function, args [][]*Term, bindings [][]*Term, i
 	if con != nil && !forceInline && !f.spec {
 		return f.callByContract(fn, con, args, bindings, in, rt, anchor)
 	}
-	if pp0 := fnPkgPath(fn); pureExterns[pp0+"."+funcKey(fn)] || isPureByPackage(pp0) {
+	if pp0 := fnPkgPath(fn); pureExterns[pp0+"."+funcKey(fn)] || isPureByPackage(pp0) || cgoRuntimeHelper(fn.Name()) {
 		q0 := pp0 + "." + funcKey(fn)
 		f.u.Trusted["pure (no effect on verified state): "+q0] = true
 		r := f.u.freshValue("ext", rt)
@@ -295,8 +306,10 @@ func (f *Frame) callFunc(fn *ssa.Function, args [][]*Term, bindings [][]*Term, i
 		f.resultFacts(rt, r, q)
 		return r
 	}
-	if f.spec {
-		// uninterpreted pure function of its argument slots
+	ghost := len(fn.Blocks) == 0 && strings.HasPrefix(name, "verif") && strings.HasPrefix(pp, modPath)
+	if f.spec || ghost {
+		// uninterpreted pure function of its argument slots (a bodyless spec function is one in
+		// executable ghost code, too: lemma bodies and model programs)
 		var flat []*Term
 		for _, a := range args {
 			flat = append(flat, a...)
@@ -305,6 +318,14 @@ func (f *Frame) callFunc(fn *ssa.Function, args [][]*Term, bindings [][]*Term, i
 		r := make([]*Term, len(ss))
 		for i, s := range ss {
 			r[i] = f.tb().UF(fmt.Sprintf("spec!%s!%d", q, i), s, flat...)
+		}
+		if !f.spec {
+			// ghost values denote data that exists independently of the execution: input world
+			for _, fact := range f.u.validFacts(rt, r, f.tb().BVU(32, freshBase)) {
+				if !fact.hasBV {
+					f.u.addFact(fact)
+				}
+			}
 		}
 		return r
 	}
